@@ -66,8 +66,12 @@ impl ISocketConnection for DirectInprocConnection {
           }
         }
 
-        let timeout_dur = self.sndtimeo.unwrap_or(Duration::from_secs(300));
-        match tokio::time::timeout(timeout_dur, self.peer_queue_sender.send(returned)).await {
+        // SNDTIMEO = -1 (None) waits until there is room; only a positive SNDTIMEO bounds the wait.
+        let sent = match self.sndtimeo {
+          None => Ok(self.peer_queue_sender.send(returned).await),
+          Some(timeout_dur) => tokio::time::timeout(timeout_dur, self.peer_queue_sender.send(returned)).await,
+        };
+        match sent {
           Ok(Ok(())) => {
             if !self.peer_queue_sender.is_full() {
               if self.is_congested.swap(false, Ordering::AcqRel) {
